@@ -13,7 +13,10 @@ RULE = (
     "Hypothesis-generated tempo-change lists (1..8 changes; bpm from nice values, integers and floats in [1,1e4]; "
     "initial offset in +-1e7 incl. negatives) in two shapes: constant metronome 1..8 with every change a snap-grid "
     "distance after the previous one, and varying metronomes 1..8 with changes on measure lines; query multisets of "
-    "on-grid positions and off-grid milliseconds, shuffled, with duplicates. Oracle: exact Fraction beat arithmetic "
+    "on-grid positions and off-grid milliseconds, shuffled, with duplicates; snaps()/beats() get the default Snapper in 3 of "
+    "7 cases and otherwise one built from other divisions (up to 4, 16, 20 or 128; queries and changes then on that grid "
+    "too): on-grid times come back exactly, off-grid ones on a fraction no finer than the largest division and as near "
+    "as the nearest listed fraction (the 1/192-beat clauses are asserted for the default and the finer list). Oracle: exact Fraction beat arithmetic "
     "+ piecewise-linear integration (vlib/ref/timing.py). Snapper: allowed set learned as the fixed points over all "
     "fractions with denominator <= max(divisions) (exhaustive), then nearest/idempotent on generated x. "
     "Non-trivial = >=2 tempo changes with queries in >=2 segments, or a shuffled query list with duplicates; "
